@@ -237,13 +237,11 @@ def run_case(ctx, case):
     if case["cls"] != "nan_after_construction" and not np.array_equal(exp, exp_user):
         ctx.check("roundtrip", False, {"stage": "constructor changed the table", **(first_diff(exp, exp_user) or {})})
         return
-    try:
-        ctx.active = False
-        _df_h, ctx._last_header = cm.EmMotl.read_in(path)
-    except Exception:
-        pass
-    finally:
-        ctx.active = True
+    # read_in called directly (judged by the em_read monitor whatever route the loaders below take to the reader); its header
+    # is handed to a later write_out(header=...)
+    okr, rr = ctx.call("EmMotl.read_in(str)", cm.EmMotl.read_in, path)
+    if okr and isinstance(rr, tuple) and len(rr) == 2:
+        ctx._last_header = rr[1]
     loaders = [("Motl.load(str)", lambda: cm.Motl.load(path)), ("EmMotl(str)", lambda: cm.EmMotl(path)),
                ("EmMotl(Path)", lambda: cm.EmMotl(pathlib.Path(path)))]
     which = loaders[case["i"] % 3:] + loaders[:case["i"] % 3]
